@@ -45,7 +45,7 @@ def run(run, tier):
         if EL.xchk_domain(c): cases.append(c)
     res = EL.xchk_impl(EoN, sim, cases)
     judged = nontrivial = 0
-    stats = {'ties_at_tmin_allowed': 0, 'impl_failed': 0, 'outside_domain': 0}
+    stats = {'impl_failed': 0, 'outside_domain': 0}
     samples = []
     for case, v, plain, full in res:
         if 'skip' in v: continue
